@@ -208,6 +208,10 @@ class H11Protocol:
                 elif isinstance(event, Data):
                     # WebSocket pass through
                     await self.stream.handle(event)
+                    if getattr(self.stream, "closed", False) is True:
+                        # Answered by the stream itself (data before the
+                        # handshake was accepted) which it does not report.
+                        await self._maybe_recycle()
 
     async def _create_stream(self, request: h11.Request) -> None:
         upgrade_value = ""
@@ -267,6 +271,10 @@ class H11Protocol:
         )
         self.keep_alive_requests += 1
         await self.context.mark_request()
+        if getattr(self.stream, "closed", False) is True:
+            # The stream has answered the request by itself (e.g. an
+            # invalid server name) and closed, which it does not report.
+            await self._maybe_recycle()
 
     async def _send_h11_event(self, event: H11SendableEvent) -> None:
         try:
